@@ -20,6 +20,7 @@ func checkC20(c *Ctx) {
 	c20FirstStartCrash(c)
 	c20RestructureCrash(c)
 	c20StartFaults(c)
+	c20UnlistedPairings(c)
 	c20ConcurrentUnpair(c)
 	c20ListingDuringRemoval(c)
 	c20ForeignStorage(c)
